@@ -177,7 +177,8 @@ CHECKS["C06"] = dict(
     level_text="Generated shutdown scenarios over handler sets, CloseTimeouts, caller counts, path points and release delays run against a real Router with scripted subscribers/publishers (and a GoChannel variant). Handler progress and settlement of every emitted message are sampled in the calling goroutine at the instant each Close call returns, at Run's return and after a 50 ms window, and compared with the graceful-close contract; time-outs must surface as an error in time. Further dimensions: subscriptions that end by themselves while an invocation runs, shutdown started through the Run context, a publisher whose Publish returns only when it is closed, a draining subscriber with a handler far beyond the timeout (Close must return within CloseTimeout+3 s); separate tests for Close while RunHandlers is between two handlers and for Close before Run (a Close that returned nil is held to 'none will start afterwards').",
     level_note="Trusted: the hook controller, synchronous sampling in the caller goroutine, scripted Pub/Subs. The path points are those instrumented; schedules between un-instrumented instructions are reached only by noise. 10 s liveness bounds re-confirmed once.",
     steps=[dict(name="close", run="^TestGracefulClose$", quick=160, thorough=36000, shards_thorough=15),
-           dict(name="close-while-starting", run="^(TestCloseWhileStarting|TestCloseBeforeRun)$", quick=100, thorough=20000)],
+           dict(name="close-while-starting", run="^(TestCloseWhileStarting|TestCloseBeforeRun)$", quick=100, thorough=20000),
+           dict(name="close-after-failed-startup", run="^TestCloseAfterFailedStartup$", quick=40, thorough=3000)],
 )
 
 CHECKS["C10"] = dict(
